@@ -54,20 +54,23 @@ type run struct {
 	blocks  map[int]*hotstuff.Block
 	newBlk  []any // block records first seen since the last log line
 
-	net     []envelope
-	seq     int
-	qcPool  []hotstuff.QuorumCert
-	tcPool  []hotstuff.TimeoutCert
-	aggPool []hotstuff.AggregateQC
-	pcPool  []hotstuff.PartialCert // votes seen by the adversary
-	nextCmd map[int]int
-	steps   int
-	fetchOK int // percent of fetches answered
-	healed  bool
-	live    []hotstuff.ID // members of the synchronous quorum after heal
-	script  *[]int
+	net         []envelope
+	seq         int
+	qcPool      []hotstuff.QuorumCert
+	tcPool      []hotstuff.TimeoutCert
+	aggPool     []hotstuff.AggregateQC
+	pcPool      []hotstuff.PartialCert // votes seen by the adversary
+	nextCmd     map[int]int
+	steps       int
+	fetchOK     int // percent of fetches answered
+	healed      bool
+	live        []hotstuff.ID // members of the synchronous quorum after heal
+	script      *[]int
+	cmdLog      [][2]int // client commands issued so far
+	coop        bool     // the Byzantine replicas mostly play along (their blocks get committed)
+	coopDone    map[int]bool
 	fixedLeader int
-	lmode   string
+	lmode       string
 }
 
 func (r *run) honest() []*hx.Node {
@@ -307,9 +310,14 @@ func (r *run) topUp() {
 		cl := 1 + r.rng.Intn(2)
 		r.nextCmd[cl]++
 		seq := r.nextCmd[cl]
+		// the client's request reaches most replicas (where a client then waits for the outcome); a replica that
+		// misses it learns the command only from a committed block
 		for _, m := range r.honest() {
-			m.Submit(&clientpb.Command{ClientID: uint32(cl), SequenceNumber: uint64(seq), Data: []byte{byte(cl), byte(seq), byte(seq >> 8)}})
+			if r.rng.Intn(5) > 0 {
+				m.Submit(&clientpb.Command{ClientID: uint32(cl), SequenceNumber: uint64(seq), Data: []byte{byte(cl), byte(seq), byte(seq >> 8)}})
+			}
 		}
+		r.cmdLog = append(r.cmdLog, [2]int{cl, seq})
 	}
 }
 
@@ -398,6 +406,87 @@ func (r *run) forgeQC(b *hotstuff.Block) hotstuff.QuorumCert {
 	return hotstuff.NewQuorumCert(nil, b.View(), b.Hash())
 }
 
+// forgeTC: a timeout certificate no quorum stands behind
+func (r *run) forgeTC(view hotstuff.View) hotstuff.TimeoutCert {
+	by := r.byzIDs()
+	switch r.rng.Intn(3) {
+	case 0:
+		if len(r.tcPool) > 0 { // genuine signatures, other view
+			tc := r.tcPool[r.rng.Intn(len(r.tcPool))]
+			if tc.View() != view && tc.Signature() != nil {
+				return hotstuff.NewTimeoutCert(tc.Signature(), view)
+			}
+		}
+	case 1:
+		return hotstuff.NewTimeoutCert(nil, view)
+	}
+	// the Byzantine replicas' own signatures only
+	var sigs []hotstuff.QuorumSignature
+	for _, id := range by {
+		if s, err := r.node(id).Auth.Sign(view.ToBytes()); err == nil {
+			sigs = append(sigs, s)
+		}
+	}
+	if len(sigs) >= 2 {
+		if s, err := r.node(by[0]).Auth.Combine(sigs...); err == nil {
+			return hotstuff.NewTimeoutCert(s, view)
+		}
+	}
+	if len(sigs) == 1 {
+		return hotstuff.NewTimeoutCert(sigs[0], view)
+	}
+	return hotstuff.NewTimeoutCert(nil, view)
+}
+
+// coopMaybe: a Byzantine leader that plays along: one well-formed proposal for the current view to everybody,
+// extending the newest genuine certificate -- but its batch repeats client commands that earlier blocks already
+// carry. Such blocks get certified and committed like honest ones.
+func (r *run) coopMaybe() bool {
+	by := r.byzIDs()
+	if len(by) == 0 {
+		return false
+	}
+	hon := r.honest()
+	mv := r.maxHonestView()
+	if r.coop && r.byz[r.lr.GetLeader(hotstuff.View(mv))] && !r.coopDone[mv] && len(r.qcPool) > 0 {
+		lid := r.lr.GetLeader(hotstuff.View(mv))
+		best := r.qcPool[0]
+		for _, qc := range r.qcPool {
+			if qc.View() > best.View() && qc.View() < hotstuff.View(mv) && qc.Signature() != nil {
+				best = qc
+			}
+		}
+		if _, known := r.blockID[best.BlockHash()]; known && best.View() < hotstuff.View(mv) {
+			r.coopDone[mv] = true
+			r.nextCmd[9]++
+			batch := &clientpb.Batch{Commands: []*clientpb.Command{{ClientID: 9, SequenceNumber: uint64(r.nextCmd[9]), Data: []byte{7}}}}
+			for k := 0; k < 2 && len(r.cmdLog) > 0; k++ {
+				c := r.cmdLog[r.rng.Intn(len(r.cmdLog))]
+				batch.Commands = append(batch.Commands, &clientpb.Command{ClientID: uint32(c[0]), SequenceNumber: uint64(c[1]), Data: []byte{byte(c[0]), byte(c[1]), byte(c[1] >> 8)}})
+			}
+			b := hotstuff.NewBlock(best.BlockHash(), best, batch, hotstuff.View(mv), lid)
+			r.regBlock(b)
+			for _, x := range by {
+				r.node(x).BC.Store(b)
+			}
+			var msgs []envelope
+			for _, n := range hon {
+				msgs = append(msgs, envelope{from: lid, to: n.ID, msg: hotstuff.ProposeMsg{ID: lid, Block: b}})
+			}
+			// and it votes for its own block at the next leader
+			if pc, err := r.node(lid).Auth.CreatePartialCert(b); err == nil {
+				next := r.lr.GetLeader(hotstuff.View(mv + 1))
+				if !r.byz[next] {
+					msgs = append(msgs, envelope{from: lid, to: next, msg: hotstuff.VoteMsg{ID: lid, PartialCert: pc}})
+				}
+			}
+			r.logByz("coop-propose", lid, msgs)
+			return true
+		}
+	}
+	return false
+}
+
 func (r *run) adversary() {
 	by := r.byzIDs()
 	if len(by) == 0 {
@@ -419,6 +508,9 @@ func (r *run) adversary() {
 		return s
 	}
 	mv := r.maxHonestView()
+	if r.coopMaybe() {
+		return
+	}
 	switch a := r.rng.Intn(10); {
 	case a < 4: // proposals
 		view := hotstuff.View(max(1, mv+r.rng.Intn(3)-1))
@@ -439,6 +531,11 @@ func (r *run) adversary() {
 			}
 			r.nextCmd[9]++
 			batch := &clientpb.Batch{Commands: []*clientpb.Command{{ClientID: 9, SequenceNumber: uint64(r.nextCmd[9]), Data: []byte{byte(tag)}}}}
+			if len(r.cmdLog) > 0 && r.rng.Intn(2) == 0 {
+				// a Byzantine leader may re-propose client commands, also ones that are committed already
+				c := r.cmdLog[r.rng.Intn(len(r.cmdLog))]
+				batch.Commands = append(batch.Commands, &clientpb.Command{ClientID: uint32(c[0]), SequenceNumber: uint64(c[1]), Data: []byte{byte(c[0]), byte(c[1]), byte(c[1] >> 8)}})
+			}
 			b := hotstuff.NewBlock(parent, qc, batch, view, id)
 			r.regBlock(b)
 			for _, x := range by {
@@ -483,7 +580,9 @@ func (r *run) adversary() {
 		} else if r.rng.Intn(2) == 0 {
 			si.SetQC(r.forgeQC(r.someBlock()))
 		}
-		if len(r.tcPool) > 0 && r.rng.Intn(3) == 0 {
+		if r.rng.Intn(4) == 0 {
+			si.SetTC(r.forgeTC(hotstuff.View(1 + r.rng.Intn(mv+1))))
+		} else if len(r.tcPool) > 0 && r.rng.Intn(3) == 0 {
 			tc := r.tcPool[r.rng.Intn(len(r.tcPool))]
 			if r.rng.Intn(3) == 0 {
 				tc = hotstuff.NewTimeoutCert(tc.Signature(), tc.View()+hotstuff.View(1+r.rng.Intn(4))) // relabelled
@@ -507,7 +606,14 @@ func (r *run) adversary() {
 		r.logByz("timeout", id, msgs)
 	default: // new-view with replayed, relabelled or forged certificates
 		si := hotstuff.NewSyncInfo()
-		switch r.rng.Intn(4) {
+		switch r.rng.Intn(6) {
+		case 4, 5: // a genuine QC accompanied by a forged TC (own signatures only / relabelled / unsigned)
+			if len(r.qcPool) > 0 {
+				qc := r.qcPool[len(r.qcPool)-1-r.rng.Intn(min(len(r.qcPool), 3))]
+				si.SetQC(qc)
+				tv := hotstuff.View(1 + r.rng.Intn(int(qc.View())+2))
+				si.SetTC(r.forgeTC(tv))
+			}
 		case 0:
 			si.SetQC(r.forgeQC(r.someBlock()))
 		case 1:
@@ -608,7 +714,8 @@ func protoCmd(args []string) error {
 		}
 		r := &run{o: o, rng: rng, n: n, q: hotstuff.QuorumSize(n), nodes: nodes, byz: byz, lr: scriptLR{n: n, script: &script}, script: &script, fixedLeader: fixedLeader, lmode: lmode,
 			agg: rs == "fasthotstuff", blockID: map[hotstuff.Hash]int{hotstuff.GetGenesis().Hash(): 0},
-			blocks: map[int]*hotstuff.Block{0: hotstuff.GetGenesis()}, nextCmd: map[int]int{}, fetchOK: 60 + rng.Intn(41)}
+			blocks: map[int]*hotstuff.Block{0: hotstuff.GetGenesis()}, nextCmd: map[int]int{}, fetchOK: 60 + rng.Intn(41),
+			coop: rng.Intn(2) == 0, coopDone: map[int]bool{}}
 		if *noByz {
 			// crash/silent faults instead of Byzantine ones
 		}
@@ -656,6 +763,9 @@ func protoCmd(args []string) error {
 		// ---- asynchronous / adversarial phase
 		for s := 0; s < *maxSteps && !ff; s++ {
 			r.topUp()
+			if !silent {
+				r.coopMaybe()
+			}
 			c := rng.Intn(1000)
 			switch {
 			case c < pLose && len(r.net) > 0: // lose
